@@ -1,11 +1,14 @@
 #!/bin/bash
 # usage: try_mutant.sh <PROP> <diff> [tier]   — apply the diff to /repo, run the check, revert.
-P=$1; D=$2; T=${3:-quick}
+P=$1; D=$(readlink -f "$2"); T=${3:-quick}
+mkdir -p /verif/.cache
+exec 9>/verif/.cache/mutant.lock
+flock 9          # one mutant at a time: the change is applied to /repo itself
 cd /repo || exit 9
 if ! git diff --quiet; then echo "repo dirty"; exit 9; fi
 git apply "$D" || { echo "APPLY-FAILED $D"; exit 8; }
 cd /verif
-VERIF_SEED=${VERIF_SEED:-1} timeout 1800 /venv/bin/python harness/run_check.py --property $P --tier $T > /tmp/mut_run_$$.log 2>&1
+VERIF_HAVE_LOCK=1 VERIF_SEED=${VERIF_SEED:-1} timeout 1800 /venv/bin/python harness/run_check.py --property $P --tier $T > /tmp/mut_run_$$.log 2>&1
 rc=$?
 git -C /repo checkout -- .
 git -C /repo clean -fdq -e 'test.dict.*' >/dev/null 2>&1
